@@ -29,8 +29,13 @@ def die(msg, code=2):
 
 
 def registry():
-    with open(os.path.join(VERIF, "checks.json")) as f:
-        return json.load(f)
+    reg = {}
+    d = os.path.join(VERIF, "checks.d")
+    for name in sorted(os.listdir(d)):
+        if name.endswith(".json"):
+            with open(os.path.join(d, name)) as f:
+                reg[name[:-5]] = json.load(f)
+    return reg
 
 
 def add_dir(replace, src_dir, dst_dir):
@@ -55,10 +60,11 @@ def base_overlay(harness, shims):
         if extra.endswith("lib"):
             add_dir(rep, os.path.join(VERIF, "harness", extra), os.path.join(REPO, "internal/zzverif", extra))
     for s in shims:
-        sdir = os.path.join(VERIF, "shims", s)
-        if not os.path.isdir(sdir):
-            die("no shim dir " + sdir)
-        add_dir(rep, sdir, os.path.join(REPO, s))
+        # a shim is one file: shims/<package path>/zz_verif_<x>.go, mounted into that package
+        sp = os.path.join(VERIF, "shims", s)
+        if not os.path.isfile(sp):
+            die("no shim file " + sp)
+        rep[os.path.join(REPO, s)] = sp
     return rep
 
 
